@@ -1682,8 +1682,21 @@ fn real_main() {
         Some("run") => {
             let text = std::fs::read_to_string(&args[2]).unwrap();
             let mut out = String::new();
+            rsm_harness::silence_panics();
             for line in text.lines() {
-                run_line(line, &mut out);
+                // an unexpected token in a line must not take the whole shard down
+                let r = rsm_harness::catch(std::panic::AssertUnwindSafe(|| {
+                    let mut o = String::new();
+                    run_line(line, &mut o);
+                    o
+                }));
+                match r {
+                    Ok(o) => out.push_str(&o),
+                    Err(_) => {
+                        let id = line.split(' ').nth(1).unwrap_or("?");
+                        out.push_str(&format!("Q {id} Eharness\n"));
+                    }
+                }
                 print!("{}", out);
                 out.clear();
             }
